@@ -74,8 +74,7 @@ var psiSections = []psiSection{
 		entries: []string{"newDescriptorAVCVideo", "newDescriptorDataStreamAlignment", "newDescriptorMaximumBitrate",
 			"newDescriptorPrivateDataIndicator", "newDescriptorPrivateDataSpecifier", "newDescriptorStreamIdentifier",
 			"newDescriptorUnknown", "newDescriptorRegistration", "newDescriptorNetworkName", "newDescriptorComponent",
-			"newDescriptorISO639LanguageAndAudioType", "newDescriptorContent", "newDescriptorParentalRating",
-			"newDescriptorService", "newDescriptorShortEvent"}},
+			"newDescriptorContent", "newDescriptorService", "newDescriptorShortEvent"}},
 }
 
 // ---------- hooks called from itermonad.go ----------
